@@ -26,6 +26,19 @@ func (u *Unit) localResolver(fc *frameCtx, li *loopInfo, st *State, pc *Term, ph
 					return specVal{v: phiVals[phi], t: phi.Type()}, true
 				}
 			}
+			// a phi of an enclosing loop: its value is fixed while this loop runs
+			for _, b := range fn.Blocks {
+				if b == li.header || !b.Dominates(li.header) {
+					continue
+				}
+				for _, in := range b.Instrs {
+					if phi, ok := in.(*ssa.Phi); ok && phi.Name() == name[5:] {
+						if v, ok := fc.vals[phi]; ok {
+							return specVal{v: v, t: phi.Type()}, true
+						}
+					}
+				}
+			}
 			return specVal{}, false
 		}
 		// 1. loop-carried variables: header phis by source name
@@ -36,6 +49,51 @@ func (u *Unit) localResolver(fc *frameCtx, li *loopInfo, st *State, pc *Term, ph
 			}
 			if phi.Comment == name {
 				return specVal{v: phiVals[phi], t: phi.Type()}, true
+			}
+		}
+		// 1b. variables carried by an enclosing loop or merged earlier (not changed at this loop's head): the closest
+		// dominating phi of that name
+		{
+			var bestPhi *ssa.Phi
+			for _, b := range fn.Blocks {
+				if b == li.header || !b.Dominates(li.header) {
+					continue
+				}
+				for _, in := range b.Instrs {
+					phi, ok := in.(*ssa.Phi)
+					if !ok {
+						break
+					}
+					if phi.Comment == name {
+						if _, ok := fc.vals[phi]; ok && (bestPhi == nil || bestPhi.Block().Dominates(b)) {
+							bestPhi = phi
+						}
+					}
+				}
+			}
+			if bestPhi != nil {
+				// a later plain definition (debug reference) may still be closer: only take the phi when no
+				// non-phi definition of the name lies between it and the loop
+				closer := false
+				for _, b := range fn.Blocks {
+					if !b.Dominates(li.header) || b == li.header || !bestPhi.Block().Dominates(b) {
+						continue
+					}
+					for _, in := range b.Instrs {
+						if d, ok := in.(*ssa.DebugRef); ok && !d.IsAddr {
+							if id, ok := d.Expr.(*ast.Ident); ok && id.Name == name {
+								if _, isPhi := d.X.(*ssa.Phi); !isPhi {
+									if _, defined := fc.vals[d.X]; defined {
+										closer = true
+									}
+								}
+							}
+						}
+					}
+				}
+				if !closer {
+					return specVal{v: fc.vals[bestPhi], t: bestPhi.Type()}, true
+				}
 			}
 		}
 		// 2. parameters and free variables
